@@ -476,6 +476,80 @@ func Sleep(d time.Duration) {
 	rpc(req{k: kSleep, n: int(d)})
 }
 
+// Go stands in for a go statement of the library under test (the scratch rewrite turns `go f(x)` into it, with f and x
+// evaluated at the statement as the language prescribes). Inside a simulation the new goroutine becomes a task of the
+// scheduler: it runs only when chosen, its synchronisation goes through the same shim, and the race detector is told
+// exactly the edge a go statement gives (the statement happens before the goroutine's first instruction). Outside a
+// simulation (package initialisation, the oracle process) it is a plain goroutine on the real primitives.
+func Go(fn func()) {
+	if getCur() == nil {
+		go fn()
+		return
+	}
+	tok := new(uint64)
+	raceRelease(unsafe.Pointer(tok))
+	rpc(req{k: kSpawn, x: func() {
+		raceAcquire(unsafe.Pointer(tok))
+		fn()
+	}})
+}
+
+// Spawned reports whether the caller is a goroutine the library started (directly or indirectly), as opposed to a harness task.
+func Spawned() bool {
+	t := getCur()
+	return t != nil && t.spawned
+}
+
+// Timer stands in for *time.Timer as returned by time.AfterFunc: a task that sleeps on the simulated clock and then calls f,
+// unless it was stopped. Channel timers (time.NewTimer, time.After, tickers) have no counterpart: the rewrite refuses them.
+type Timer struct {
+	C     <-chan time.Time // always nil, as for an AfterFunc timer
+	f     func()
+	state int32 // generation*2 + (1 if the current generation is no longer pending)
+}
+
+func AfterFunc(d time.Duration, f func()) *Timer {
+	t := &Timer{f: f}
+	t.arm(d, 0)
+	return t
+}
+
+func (t *Timer) arm(d time.Duration, gen int32) {
+	Go(func() {
+		Sleep(d)
+		if atomic.CompareAndSwapInt32(&t.state, gen*2, gen*2+1) {
+			t.f()
+		}
+	})
+}
+
+// Stop prevents the timer from firing; it reports whether the call stopped it (false: already fired or stopped).
+func (t *Timer) Stop() bool {
+	Yield()
+	for {
+		s := atomic.LoadInt32(&t.state)
+		if s&1 == 1 {
+			return false
+		}
+		if atomic.CompareAndSwapInt32(&t.state, s, s+1) {
+			return true
+		}
+	}
+}
+
+// Reset re-arms the timer to fire after d; it reports whether the timer had been pending.
+func (t *Timer) Reset(d time.Duration) bool {
+	Yield()
+	for {
+		s := atomic.LoadInt32(&t.state)
+		next := (s/2 + 1) * 2
+		if atomic.CompareAndSwapInt32(&t.state, s, next) {
+			t.arm(d, next/2)
+			return s&1 == 0
+		}
+	}
+}
+
 // Yield is an unconditional scheduling point.
 func Yield() {
 	if getCur() != nil {
